@@ -105,23 +105,30 @@ impl Shared {
 
 pub struct CaptureNotif {
     pub shared: Arc<Mutex<Shared>>,
+    /// the mail provider never answers (it is not the node's RPC: nothing else may wait for it)
+    pub stall: bool,
 }
 
 #[async_trait::async_trait]
 impl NotificationService for CaptureNotif {
     async fn notify_payment_failed(&self, req: NotifyPaymentFailedRequest) {
-        let mut s = self.shared.lock().unwrap();
-        s.push(Ev::Notify {
-            payee: req.destination.to_string(),
-            hash: *<secp256k1::hashes::sha256::Hash as AsRef<[u8; 32]>>::as_ref(&req.payment_hash),
-            invoice: req.invoice.clone(),
-        });
+        {
+            let mut s = self.shared.lock().unwrap();
+            s.push(Ev::Notify {
+                payee: req.destination.to_string(),
+                hash: *<secp256k1::hashes::sha256::Hash as AsRef<[u8; 32]>>::as_ref(&req.payment_hash),
+                invoice: req.invoice.clone(),
+            });
+        }
+        if self.stall {
+            std::future::pending::<()>().await;
+        }
     }
 }
 
 pub fn hash_of_request(method: &str, params: &Value) -> Option<[u8; 32]> {
     match method {
-        "datastore" | "listdatastore" => {
+        "datastore" | "listdatastore" | "deldatastore" => {
             let k = params.get("key")?.as_array()?;
             let h = hex::decode(k.get(2)?.as_str()?).ok()?;
             h.try_into().ok()
@@ -179,7 +186,16 @@ async fn serve_conn(mut stream: tokio::net::UnixStream, shared: Arc<Mutex<Shared
                 let (tx, rx) = oneshot::channel();
                 let now = s.now_ms();
                 s.pending.push(PendingRpc { uid, method: method.clone(), params: params.clone(), hash, tx: Some(tx), group: None, arrived_ms: now });
-                s.push(Ev::RpcArrive { uid, method, params, hash });
+                // monitors see the removal of a record as a write that makes the hash free (absent = free)
+                let (ev_method, ev_params) = if method == "deldatastore" {
+                    let mut p = params.clone();
+                    p["string"] = json!("\"Free\"");
+                    p["mode"] = json!("delete");
+                    ("datastore".to_string(), p)
+                } else {
+                    (method, params)
+                };
+                s.push(Ev::RpcArrive { uid, method: ev_method, params: ev_params, hash });
                 rx
             }
         };
@@ -285,6 +301,19 @@ impl World {
             node.datastore.insert(vec!["trampoline".into(), "payments".into(), h.clone(), "state".into()], (state, 0));
             let info = json!({"amount_msat": spec.deliver_amount(), "bolt11": build_invoice(spec, InvKind::Normal), "completed": false, "success": false}).to_string();
             node.datastore.insert(vec!["trampoline".into(), "payments".into(), h, "attempts".into(), "1".into()], (info, 0));
+        }
+        for pay in &scn.initial_succeeded {
+            // as if an earlier run of the pinned release had paid this invoice: its stored format, byte for byte
+            // (`{"Succeeded":{"preimage":[..32 numbers..]}}`, attempt record completed + success)
+            let spec = &scn.payments[*pay as usize % scn.payments.len()];
+            let h = hex::encode(spec.hash());
+            let state = json!({"Succeeded": {"preimage": spec.preimage_bytes().to_vec()}}).to_string();
+            node.datastore.insert(vec!["trampoline".into(), "payments".into(), h.clone(), "state".into()], (state, 2));
+            let info = json!({"amount_msat": spec.deliver_amount(), "bolt11": build_invoice(spec, InvKind::Normal), "completed": true, "success": true}).to_string();
+            node.datastore.insert(vec!["trampoline".into(), "payments".into(), h, "attempts".into(), "1".into()], (info, 1));
+            let g = node.new_group();
+            let uid = node.add_part(spec.hash(), g, None);
+            node.parts[uid].status = PartStatus::Complete;
         }
         for (pay, st) in &scn.initial_parts {
             let hash = scn.payments[*pay as usize % scn.payments.len()].hash();
@@ -522,6 +551,12 @@ impl World {
         self.shared.lock().unwrap().win += 1;
     }
 
+    /// configuration of the lifetime that starts next (probes always run in a fresh lifetime)
+    fn cfg_next(&self) -> Cfg {
+        let life = self.shared.lock().unwrap().life;
+        self.scn.cfg_at(life + 1).clone()
+    }
+
     async fn start_lifetime(&mut self) -> Lifetime {
         let _ = std::fs::remove_file(&self.sock_path);
         let listener = tokio::net::UnixListener::bind(&self.sock_path).expect("bind");
@@ -539,14 +574,15 @@ impl World {
         let watcher = Arc::new(watcher);
         let store = Arc::new(ClnDatastore::new(rpc.clone()));
         let provider = Arc::new(PayPaymentProvider::new(rpc.clone(), Duration::from_secs(60), false));
-        let c = &self.scn.cfg;
+        let life_now = self.shared.lock().unwrap().life;
+        let c = self.scn.cfg_at(life_now).clone();
         let mgr = Arc::new(HtlcManager::new(HtlcManagerParams {
             allow_self_route_hints: c.allow_self,
             block_provider: watcher.clone(),
             cltv_delta: c.cltv_delta,
             local_pubkey: local_pubkey(),
             mpp_timeout: Duration::from_secs(c.mpp_timeout_s),
-            notification_service: Arc::new(CaptureNotif { shared: self.shared.clone() }),
+            notification_service: Arc::new(CaptureNotif { shared: self.shared.clone(), stall: self.scn.notif_stall }),
             payment_provider: provider.clone(),
             routing_policy: TrampolineRoutingPolicy { fee_base_msat: c.base, fee_proportional_millionths: c.ppm, cltv_expiry_delta: c.policy_delta },
             store,
@@ -705,6 +741,10 @@ impl World {
             let s = &mut *guard;
             let Some(pos) = s.pending.iter().position(|r| r.uid == uid) else { return };
             let mut r = s.pending.remove(pos);
+            let deleting = r.method == "deldatastore";
+            if deleting {
+                r.method = "datastore".into();
+            }
             let (reply, applied, fault) = match r.method.as_str() {
                 "datastore" => {
                     let idx = s.node.writes_seen;
@@ -713,11 +753,11 @@ impl World {
                     match fault {
                         Some(FaultKind::Reject) => (rpc_error(-1, "injected: write rejected"), false, true),
                         Some(FaultKind::AppliedButError) => {
-                            let (_, applied) = s.node.datastore_write(&r.params);
+                            let (_, applied) = if deleting { s.node.datastore_delete(&r.params) } else { s.node.datastore_write(&r.params) };
                             (rpc_error(-1, "injected: write applied but reported failed"), applied, true)
                         }
                         None => {
-                            let (rep, applied) = s.node.datastore_write(&r.params);
+                            let (rep, applied) = if deleting { s.node.datastore_delete(&r.params) } else { s.node.datastore_write(&r.params) };
                             (rep, applied, false)
                         }
                     }
@@ -1120,7 +1160,7 @@ impl World {
                 break; // proved hang inside the model
             }
             idle_ticks += 1;
-            let t = (self.scn.cfg.mpp_timeout_s.max(60)) + 5;
+            let t = (self.scn.cfg.mpp_timeout_s.max(self.scn.cfg_later.as_ref().map(|c| c.mpp_timeout_s).unwrap_or(0)).max(60)) + 5;
             self.tick(t).await;
         }
         self.settle().await;
@@ -1175,13 +1215,13 @@ impl World {
     /// recipient is delivered and the world drained. A failing probe that
     /// leaves the stored image unchanged is a fixpoint, hence permanent.
     /// appends a fully funded HTLC for payment 0 (cooperative recipient) to the scenario
-    fn push_probe_htlc(&mut self, need: u64) -> Option<usize> {
+    fn push_probe_htlc(&mut self, need: u64, cfg: &Cfg) -> Option<usize> {
         let height = self.shared.lock().unwrap().node.height;
         self.scn.payments[0].recipient_ok = true;
         if self.scn.payments[0].drain_parts == 0 {
             self.scn.payments[0].drain_parts = 1;
         }
-        let rel = self.scn.cfg.policy_delta as i64 + 10;
+        let rel = cfg.policy_delta as i64 + 10;
         let h = HtlcSpec {
             pay: 0,
             hash_of: None,
@@ -1215,12 +1255,16 @@ impl World {
         self.in_probe = true;
         self.crash_pending = None;
         let p0 = self.scn.payments[0].clone();
-        let need = needed_total(&self.scn.cfg, p0.deliver_amount());
+        let cfg_now = {
+            let life = self.shared.lock().unwrap().life;
+            self.scn.cfg_at(life).clone()
+        };
+        let need = needed_total(&cfg_now, p0.deliver_amount());
         if need == u64::MAX || need > 1_000_000_000_000_000_000 {
             return;
         }
         let before = self.shared.lock().unwrap().node.image_of(&p0.hash());
-        let Some(idx) = self.push_probe_htlc(need) else { return };
+        let Some(idx) = self.push_probe_htlc(need, &cfg_now) else { return };
         self.shared.lock().unwrap().push(Ev::ProbeStart { h: idx });
         self.deliver(lt, idx, false);
         self.drain(lt).await;
@@ -1234,13 +1278,14 @@ impl World {
         self.crash_pending = None;
         let p0 = self.scn.payments[0].clone();
         let amount = p0.deliver_amount();
-        let need = needed_total(&self.scn.cfg, amount);
+        let cfg_next = self.cfg_next();
+        let need = needed_total(&cfg_next, amount);
         if need == u64::MAX || need > 1_000_000_000_000_000_000 {
             return;
         }
         for round in 0..3 {
             let before = self.shared.lock().unwrap().node.image_of(&p0.hash());
-            let Some(idx) = self.push_probe_htlc(need) else { return };
+            let Some(idx) = self.push_probe_htlc(need, &cfg_next) else { return };
             {
                 let mut s = self.shared.lock().unwrap();
                 s.pending.clear();
